@@ -3,6 +3,7 @@
 package c01
 
 import (
+	"encoding/json"
 	"fmt"
 	"os"
 	"strings"
@@ -36,6 +37,49 @@ type NetCase struct {
 	// actor that loads fine; "actor": for the actor of an Announce that loads fine; "parent": for a post's parent
 	Via string `json:"via,omitempty"`
 	Widths  []int    `json:"widths"`
+}
+
+// The raw bytes of a response need not be UTF-8 (0x9B is CSI on an 8-bit terminal), and JSON text cannot carry such
+// bytes: in the saved case every byte is written as the character with that number (Latin-1) and read back likewise.
+type netWire NetCase
+
+func latin1(s string) string {
+	r := make([]rune, len(s))
+	for i := 0; i < len(s); i++ {
+		r[i] = rune(s[i])
+	}
+	return string(r)
+}
+
+func unlatin1(s string) string {
+	b := make([]byte, 0, len(s))
+	for _, r := range s {
+		b = append(b, byte(r))
+	}
+	return string(b)
+}
+
+func (c NetCase) MarshalJSON() ([]byte, error) {
+	w := netWire(c)
+	w.Status, w.Body = latin1(c.Status), latin1(c.Body)
+	w.Headers = make([]string, len(c.Headers))
+	for i, h := range c.Headers {
+		w.Headers[i] = latin1(h)
+	}
+	return json.Marshal(w)
+}
+
+func (c *NetCase) UnmarshalJSON(b []byte) error {
+	var w netWire
+	if err := json.Unmarshal(b, &w); err != nil {
+		return err
+	}
+	*c = NetCase(w)
+	c.Status, c.Body = unlatin1(w.Status), unlatin1(w.Body)
+	for i, h := range w.Headers {
+		c.Headers[i] = unlatin1(h)
+	}
+	return nil
 }
 
 func checkNet(c NetCase) vrep.Result {
